@@ -74,6 +74,7 @@ int main(int argc, char** argv) {
   gOut = fopen(args.str("out").c_str(), "w");
   if (!gOut)
     return 2;
+  fprintf(gOut, "{\"e\":\"hdr\",\"suite\":\"chunking\",\"seed\":%lld}\n", (long long)args.num("seed", 1));
   // the grid of the model: items 0..400 (multiples of g), chunks 1..40, g 1..8
   for (unsigned g = 1; g <= 8; ++g)
     for (long long chunks = 1; chunks <= 40; ++chunks)
